@@ -988,6 +988,181 @@ pub fn inode_of(fd: &impl AsRawFd) -> u64 {
     crate::world::inode_of(fd)
 }
 
+// ---------------------------------------------------------------------------------------------
+// audit of this reference model against libdbus (dlopen; never decides a property)
+// ---------------------------------------------------------------------------------------------
+
+/// `dbus_message_demarshal` and the header getters of the installed libdbus, loaded at run time.
+/// Used only to audit the reference model: a disagreement is a machinery failure, not a finding.
+pub struct LibDbus {
+    demarshal: unsafe extern "C" fn(*const libc::c_char, libc::c_int, *mut [u64; 8]) -> *mut libc::c_void,
+    bytes_needed: unsafe extern "C" fn(*const libc::c_char, libc::c_int) -> libc::c_int,
+    unref: unsafe extern "C" fn(*mut libc::c_void),
+    error_init: unsafe extern "C" fn(*mut [u64; 8]),
+    error_free: unsafe extern "C" fn(*mut [u64; 8]),
+    get_type: unsafe extern "C" fn(*mut libc::c_void) -> libc::c_int,
+    get_serial: unsafe extern "C" fn(*mut libc::c_void) -> u32,
+    get_reply_serial: unsafe extern "C" fn(*mut libc::c_void) -> u32,
+    get_no_reply: unsafe extern "C" fn(*mut libc::c_void) -> u32,
+    get_auto_start: unsafe extern "C" fn(*mut libc::c_void) -> u32,
+    get_interactive: unsafe extern "C" fn(*mut libc::c_void) -> u32,
+    get_str: [unsafe extern "C" fn(*mut libc::c_void) -> *const libc::c_char; 7],
+}
+
+/// What libdbus reads from a message it accepted.
+#[derive(Debug, Clone, PartialEq)]
+pub struct DbusReading {
+    pub mtype: i32,
+    pub serial: u32,
+    pub reply_serial: u32,
+    pub no_reply: bool,
+    pub no_auto_start: bool,
+    pub interactive: bool,
+    /// path, interface, member, error_name, destination, sender, signature
+    pub strs: Vec<Option<String>>,
+    pub bytes_needed: i32,
+}
+
+impl LibDbus {
+    pub fn load() -> Option<Self> {
+        unsafe {
+            let mut h = std::ptr::null_mut();
+            for name in ["libdbus-1.so.3\0", "libdbus-1.so\0"] {
+                h = libc::dlopen(name.as_ptr() as *const _, libc::RTLD_NOW);
+                if !h.is_null() {
+                    break;
+                }
+            }
+            if h.is_null() {
+                return None;
+            }
+            macro_rules! sym {
+                ($n:expr) => {{
+                    let p = libc::dlsym(h, concat!($n, "\0").as_ptr() as *const _);
+                    if p.is_null() {
+                        return None;
+                    }
+                    std::mem::transmute(p)
+                }};
+            }
+            Some(Self {
+                demarshal: sym!("dbus_message_demarshal"),
+                bytes_needed: sym!("dbus_message_demarshal_bytes_needed"),
+                unref: sym!("dbus_message_unref"),
+                error_init: sym!("dbus_error_init"),
+                error_free: sym!("dbus_error_free"),
+                get_type: sym!("dbus_message_get_type"),
+                get_serial: sym!("dbus_message_get_serial"),
+                get_reply_serial: sym!("dbus_message_get_reply_serial"),
+                get_no_reply: sym!("dbus_message_get_no_reply"),
+                get_auto_start: sym!("dbus_message_get_auto_start"),
+                get_interactive: sym!("dbus_message_get_allow_interactive_authorization"),
+                get_str: [
+                    sym!("dbus_message_get_path"),
+                    sym!("dbus_message_get_interface"),
+                    sym!("dbus_message_get_member"),
+                    sym!("dbus_message_get_error_name"),
+                    sym!("dbus_message_get_destination"),
+                    sym!("dbus_message_get_sender"),
+                    sym!("dbus_message_get_signature"),
+                ],
+            })
+        }
+    }
+
+    /// Demarshal `bytes` (a whole message without fds) with libdbus.
+    pub fn read(&self, bytes: &[u8]) -> Result<DbusReading, String> {
+        unsafe {
+            let mut err = [0u64; 8];
+            (self.error_init)(&mut err);
+            let needed = (self.bytes_needed)(bytes.as_ptr() as *const _, bytes.len() as libc::c_int);
+            let m = (self.demarshal)(bytes.as_ptr() as *const _, bytes.len() as libc::c_int, &mut err);
+            if m.is_null() {
+                let msg = err[1] as *const libc::c_char;
+                let text = if msg.is_null() {
+                    "demarshal failed".to_string()
+                } else {
+                    std::ffi::CStr::from_ptr(msg).to_string_lossy().into_owned()
+                };
+                (self.error_free)(&mut err);
+                return Err(text);
+            }
+            let strs = self
+                .get_str
+                .iter()
+                .map(|f| {
+                    let p = f(m);
+                    if p.is_null() {
+                        None
+                    } else {
+                        Some(std::ffi::CStr::from_ptr(p).to_string_lossy().into_owned())
+                    }
+                })
+                .collect();
+            let r = DbusReading {
+                mtype: (self.get_type)(m),
+                serial: (self.get_serial)(m),
+                reply_serial: (self.get_reply_serial)(m),
+                no_reply: (self.get_no_reply)(m) != 0,
+                no_auto_start: (self.get_auto_start)(m) == 0,
+                interactive: (self.get_interactive)(m) != 0,
+                strs,
+                bytes_needed: needed,
+            };
+            (self.unref)(m);
+            Ok(r)
+        }
+    }
+}
+
+/// Audit one reference-built message: libdbus must accept it and read the same header.
+/// `Ok(false)` = not auditable (carries fds). `Err` = the reference model and libdbus disagree.
+pub fn audit_with_libdbus(lib: &LibDbus, spec: &MsgSpec) -> Result<bool, String> {
+    if spec.body.iter().any(|a| a.count_fds() > 0) {
+        return Ok(false); // libdbus refuses UNIX_FDS without the fds on a socket
+    }
+    let (bytes, _) = spec.encode();
+    let r = lib
+        .read(&bytes)
+        .map_err(|e| format!("libdbus rejects the reference encoding {}: {e}", vcommon::hex(&bytes)))?;
+    let get = |code: u8| {
+        spec.all_fields().iter().rev().find(|(c, _)| *c == code).map(|(_, v)| match v {
+            RV::S(x) | RV::O(x) | RV::G(x) => x.clone(),
+            other => other.show(),
+        })
+    };
+    let want = DbusReading {
+        mtype: spec.mtype as i32,
+        serial: spec.serial,
+        reply_serial: spec
+            .all_fields()
+            .iter()
+            .find(|(c, _)| *c == REPLY_SERIAL)
+            .and_then(|(_, v)| if let RV::U(x) = v { Some(*x) } else { None })
+            .unwrap_or(0),
+        no_reply: spec.flags & 1 != 0,
+        no_auto_start: spec.flags & 2 != 0,
+        interactive: spec.flags & 4 != 0,
+        strs: vec![
+            get(PATH),
+            get(INTERFACE),
+            get(MEMBER),
+            get(ERROR_NAME),
+            get(DESTINATION),
+            get(SENDER),
+            Some(get(SIGNATURE).unwrap_or_default()),
+        ],
+        bytes_needed: bytes.len() as i32,
+    };
+    if r != want {
+        return Err(format!(
+            "libdbus reads {r:?} from the reference encoding of a message that logically is {want:?} ({})",
+            vcommon::hex(&bytes)
+        ));
+    }
+    Ok(true)
+}
+
 #[cfg(test)]
 mod tests {
     use super::*;
